@@ -177,6 +177,15 @@ def rule_r2(prog, res) -> None:
         for c in calls_in(fi):
             if info not in prog.resolve_call(fi, c).classes():
                 continue
+            given_flags = {k.arg for k in c.keywords if k.arg} | set(list(info.class_ann)[: len(c.args)])
+            if not any(k.arg is None for k in c.keywords):
+                # a flag that is left to its default (False) hides the column although a name for it may have been given
+                for fl in [f_ for f_ in info.class_ann if f_.startswith("has_") and f_ not in given_flags]:
+                    attr = fl[4:].rstrip("s")
+                    prm = next((q for q in fi.param_names() if q.endswith("_name") and q[: -len("_name")].rstrip("s").startswith(attr[:5])), None)
+                    if prm is not None:
+                        res.touch(fi)
+                        res.violation("C02.R2", fi, c, f"{fi.short} takes `{prm}` but builds its DataChunkInfo without `{fl}`: the flag stays False, the column is read and then left out of every chunk — the catalog is written without it, silently", key_extra=f"chunk-info-flag-missing-{fl}")
             for k_, v_ in [(k.arg, k.value) for k in c.keywords if k.arg and k.arg.startswith("has_")] + [(f_, a_) for f_, a_ in zip(list(info.class_ann), c.args)]:
                 attr = k_[4:].rstrip("s")
                 prm = next((q for q in fi.param_names() if q.endswith("_name") and q[: -len("_name")].rstrip("s").startswith(attr[:5])), None) or next((q for q in fi.param_names() if q.rstrip("s") == attr), None)
@@ -652,10 +661,15 @@ def rule_r6(prog, res) -> None:
     kwsets = {}
     for fi, c in sites:
         res.touch(fi)
-        kws = {n_ for n_, _v in named_args(c)} | ({"cache_directory"} if c.args else set())
+        from .common import expanded_keywords
+
+        xkw, xcomplete = expanded_keywords(prog, fi, c)
+        kws = {n_ for n_, _v in named_args(c)} | set(xkw) | ({"cache_directory"} if c.args else set())
         kwsets[fi.short] = kws
         for need in ("chunk_info", "overwrite", "buffersize"):
-            v = kwarg(c, need)
+            v = kwarg(c, need) or xkw.get(need)
+            if v is None and not xcomplete:
+                continue  # an options dictionary that cannot be read here: no verdict on this call
             if v is None:
                 res.violation("C02.R6", fi, c, f"this pipeline variant constructs the writer without {need}= (siblings pass it): default differs from what the caller asked for", key_extra=f"writer-kw-{need}")
             else:
@@ -676,6 +690,12 @@ def rule_r6(prog, res) -> None:
     for f in tops:
         res.touch(f)
         cci = [c for c in calls_in(f) if isinstance(c.func, ast.Attribute) and c.func.attr == "copy_chunk_info"]
+        if not cci:
+            # … built by a private helper of the module that this variant calls (an options dictionary)
+            for c0 in calls_in(f):
+                for h in prog.resolve_call(f, c0).funcs():
+                    if h.module is f.module and h.name.startswith("_") and h.cls is None:
+                        cci += [c for c in calls_in(h) if isinstance(c.func, ast.Attribute) and c.func.attr == "copy_chunk_info"]
         if f.variant == "mp" or f.variant == "mpi" or f.name.endswith("unthreaded"):
             if cci and all(isinstance(kwarg(c, "drop_patch_ids"), ast.Constant) and kwarg(c, "drop_patch_ids").value is True for c in cci):
                 res.ok("C02.R6", res.site(f, "copy_chunk_info"), "writer schema = reader schema without the patch-id column")
@@ -749,7 +769,10 @@ def rule_r6(prog, res) -> None:
     apc = prog.func("assign_patch_centers")
     res.touch(apc)
     vq = [c for c in calls_in(apc) if (dotted(c.func) or "").endswith("vq.vq") or (dotted(c.func) or "").endswith(".vq")]
-    if vq and all(_xyz(apc, c.args[0]) and isinstance(c.args[1], ast.Name) and c.args[1].id in apc.param_names() for c in vq):
+    def _vq_arg(c, i, name):
+        return c.args[i] if len(c.args) > i else kwarg(c, name)
+
+    if vq and all(_vq_arg(c, 0, "obs") is not None and _xyz(apc, _vq_arg(c, 0, "obs")) and isinstance(_vq_arg(c, 1, "code_book"), ast.Name) and _vq_arg(c, 1, "code_book").id in apc.param_names() for c in vq):
         res.ok("C02.R6", res.site(apc), "objects are converted to xyz and matched against the (xyz) centres")
     else:
         res.violation("C02.R6", apc, apc.node, "nearest-centre search does not compare xyz with xyz", key_extra="vq-units")
